@@ -174,8 +174,12 @@ func startCluster(tp topo) (env *clusterEnv, err error) {
 	}
 	env.addr = fmt.Sprintf("localhost:%d", ports[0])
 	httpAddr := fmt.Sprintf("localhost:%d", ports[1])
+	flushTimeout := clusterFlushTimeout
+	if v := os.Getenv("VERIF_CLUSTER_FLUSH"); v != "" {
+		flushTimeout = v // a longer window lets back-to-back batches pile up in one flush round of the liaison
+	}
 	env.flags = []string{
-		"--measure-flush-timeout=" + clusterFlushTimeout, "--measure-sync-interval=" + clusterSyncInterval,
+		"--measure-flush-timeout=" + flushTimeout, "--measure-sync-interval=" + clusterSyncInterval,
 		"--stream-flush-timeout=" + clusterFlushTimeout, "--stream-sync-interval=" + clusterSyncInterval,
 		"--trace-flush-timeout=" + clusterFlushTimeout, "--trace-sync-interval=" + clusterSyncInterval,
 	}
@@ -774,6 +778,7 @@ func (w *clusterWorld) replay(ctx context.Context, b vlib.Behaviour) {
 	if len(b.States) > 1 {
 		w.vmap = int(crc32.ChecksumIEEE([]byte(vlib.Canon(b.States[1]["last"]))))%1000 + int(vlib.Seed())
 	}
+	var deferred [][]map[string]any
 	for i, st := range b.States {
 		if i == 0 {
 			continue
@@ -793,18 +798,37 @@ func (w *clusterWorld) replay(ctx context.Context, b vlib.Behaviour) {
 			if len(days) == 2 {
 				w.res.Inc("batches_spanning_two_segments")
 			}
-			for _, side := range []struct {
-				conn *grpc.ClientConn
-				name string
-			}{{w.srv.conn, "standalone"}, {w.env.conn, "cluster"}} {
-				if err := w.writeTo(ctx, side.conn, rows, side.name == "cluster"); err != nil {
+			// a run of consecutive write steps reaches the cluster back to back (after the last of them), so that they pile
+			// up in the liaison's write queue within one flush window; the stand-alone server gets every batch at its step
+			nextIsWrite := i+1 < len(b.States) && vlib.Str(vlib.Map(b.States[i+1], "last"), "op") == "write"
+			deferred = append(deferred, rows)
+			toCluster := deferred
+			if nextIsWrite {
+				toCluster = nil
+			} else {
+				deferred = nil
+			}
+			writeSide := func(conn *grpc.ClientConn, name string, batch []map[string]any) bool {
+				if err := w.writeTo(ctx, conn, batch, name == "cluster"); err != nil {
 					if strings.HasPrefix(err.Error(), "VIOLATION") {
-						fail(side.name+"-write-not-acknowledged", "%v", err)
+						fail(name+"-write-not-acknowledged", "%v", err)
 					} else {
-						w.res.Inconclusive = append(w.res.Inconclusive, side.name+" write: "+err.Error())
+						w.res.Inconclusive = append(w.res.Inconclusive, name+" write: "+err.Error())
 					}
+					return false
+				}
+				return true
+			}
+			if !writeSide(w.srv.conn, "standalone", rows) {
+				return
+			}
+			for _, batch := range toCluster {
+				if !writeSide(w.env.conn, "cluster", batch) {
 					return
 				}
+			}
+			if len(toCluster) > 1 {
+				w.res.Stats["batches_sent_back_to_back"] += len(toCluster)
 			}
 		case "flush", "merge":
 			// the maintenance loops of both systems run on their own: the step only re-checks the answers
